@@ -13,7 +13,8 @@ sys.path.insert(0, os.path.join(os.path.dirname(os.path.dirname(os.path.abspath(
 import pump
 
 INTERVENER_RUN = re.compile(r'(\s*([/.,;:\-–—&]|and|thru|through|to)\s*)+')
-NUM_END = re.compile(r'(Sec|Section|Lots?)\s*\d+$')
+NUM_END = re.compile(r'(Sec|Section|Sections|Lots?)\s*\d+(\s*-\s*)?$')
+ALIQUOT_END = re.compile(r'(NE|NW|SE|SW|[NSEW])(/[24]|[¼½])$')
 TWPRGE_END = re.compile(r'(T\d+[NS]-R\d+[EW]|Township \d+ (North|South))$')
 TWPRGE_ANY = re.compile(r'T\d+[NS]-R\d+[EW]|Township \d+')
 
@@ -27,10 +28,12 @@ def known_id(fam):
         return 'C16-intervener-run'
     if TWPRGE_END.search(p) and u.strip() == '':
         return 'C16-whitespace-after-twprge'
+    if ALIQUOT_END.search(p) and u.strip() == '' and '\n' in u and len(u) > 1 and fam['suffix'].strip():
+        return 'C16-aliquot-newline-run'
     return None
 
 
-REPRESENTATIVES = ['pump|T154N-R97W Sec 14|. |', 'pump|T154N-R97W| |', 'lines|T154N-R97W|\n']
+REPRESENTATIVES = ['pump|T154N-R97W Sec 14|. |', 'pump|T154N-R97W| |', 'lines|T154N-R97W|\n', 'pump|T154N-R97W Sec 14: NE/4| \n|X']
 
 
 def run(tier, mode):
@@ -62,7 +65,7 @@ def run(tier, mode):
                 dist['max_cpu_fast_family'] = max(dist['max_cpu_fast_family'], x['worst']['cpu'])
     parts = {'timing_harness': {
         'evaluations': len(out), 'distinct_nontrivial': len(nontriv), 'impl_failures': fails, 'n_impl_failures': len(fails), 'distribution': dist,
-        'rule': 'families prefix + unit^n + suffix (8 prefixes x 27 units x 4-6 suffixes, n up to 290, <= 300 characters) and k-fold repetition of lines/sections/lots; CPU time of '
+        'rule': 'families prefix + unit^n + suffix (10 prefixes x 32 units x 5-7 suffixes, n up to 290, <= 300 characters) and k-fold repetition of lines/sections/lots; CPU time of '
                 'PLSSDesc(text, parse_qq=True) per size in a worker process killed after 8 s wall; slow = > 2 s CPU or killed, confirmed by a second run; families covered by a known '
                 'finding are represented by one member each; non-trivial = family completed under the limit',
         'samples': [{'family': 'pump|T154N-R97W Sec 14|-|: NE/4', 'sizes': [4, 8, 12, '...', 290]}]}}
